@@ -575,26 +575,33 @@ def contoursErr : List Contour → Option Err
     | some e => some e
     | none => contoursErr cs
 
+/-- `DecomposingPen.addComponent` for one component of a glyph being drawn under `t`: the base glyph
+(when the layer has it; a missing one is skipped) is drawn through `TransformPen(pen, t ∘ k.t)`;
+`rec` draws a glyph one nesting level down.  An exception ends the drawing. -/
+def compStep (w : World) (rec : Option Transform → Glyph → Except Err (List Call)) (t : Option Transform)
+    (acc : Except Err (List Call)) (k : Component) : Except Err (List Call) :=
+  match acc with
+  | .error e => .error e
+  | .ok cs =>
+    match AL.get? w.glyphs k.base with
+    | none => .ok cs
+    | some bg =>
+      match rec (some (composeO t k.t)) bg with
+      | .error e => .error e
+      | .ok cs2 => .ok (cs ++ cs2)
+
+/-- the calls of a glyph's own contours, under `t` -/
+def ownCalls (t : Option Transform) (g : Glyph) : Except Err (List Call) :=
+  match contoursErr g.contours with
+  | some e => .error e
+  | none => .ok (transformCalls t (g.contours.flatMap (fun c => drawCalls c.points)))
+
 /-- What `glyph.draw(pen)` (under an optional enclosing `TransformPen`) sends to `pen`, components
-decomposed through `DecomposingPen.addComponent` (missing base glyphs are skipped).  `fuel` bounds
-the nesting depth (cyclic references are outside the domain). -/
+decomposed through `DecomposingPen.addComponent`.  `fuel` bounds the nesting depth (cyclic
+references are outside the domain). -/
 def glyphCalls (w : World) : Nat → Option Transform → Glyph → Except Err (List Call)
   | 0, _, _ => .error .fuel
-  | fuel + 1, t, g =>
-    match contoursErr g.contours with
-    | some e => .error e
-    | none =>
-      let own := transformCalls t (g.contours.flatMap (fun c => drawCalls c.points))
-      g.components.foldl (fun acc k =>
-        match acc with
-        | .error e => .error e
-        | .ok cs =>
-          match AL.get? w.glyphs k.base with
-          | none => .ok cs
-          | some bg =>
-            match glyphCalls w fuel (some (composeO t k.t)) bg with
-            | .error e => .error e
-            | .ok cs2 => .ok (cs ++ cs2)) (.ok own)
+  | fuel + 1, t, g => g.components.foldl (compStep w (glyphCalls w fuel) t) (ownCalls t g)
 
 def fuelDefault : Nat := 16
 
@@ -647,21 +654,21 @@ def componentsBoxes (get : Component → Except Err (Option Box)) :
     | .error e => .error e
     | .ok b => componentsBoxes get ks (unionOO acc b)
 
+/-- … then the components, unless a contour raised -/
+def thenComponents (get : Component → Except Err (Option Box)) (ks : List Component) :
+    Except Err (Option Box) → Except Err (Option Box)
+  | .error e => .error e
+  | .ok acc => componentsBoxes get ks acc
+
 /-- `Glyph.bounds` -/
 def Glyph.getBounds (o : CurveOracle) (w : World) (g : Glyph) : Glyph × Except Err (Option Box) :=
   let r := contoursBoxes (Contour.getBounds o w.caching) g.contours none
-  let g' := { g with contours := r.1 }
-  match r.2 with
-  | .error e => (g', .error e)
-  | .ok acc => (g', componentsBoxes (Component.bounds o w) g.components acc)
+  ({ g with contours := r.1 }, thenComponents (Component.bounds o w) g.components r.2)
 
 /-- `Glyph.controlPointBounds` -/
 def Glyph.getCpb (w : World) (g : Glyph) : Glyph × Except Err (Option Box) :=
   let r := contoursBoxes (Contour.getCpb w.caching) g.contours none
-  let g' := { g with contours := r.1 }
-  match r.2 with
-  | .error e => (g', .error e)
-  | .ok acc => (g', componentsBoxes (Component.cpb w) g.components acc)
+  ({ g with contours := r.1 }, thenComponents (Component.cpb w) g.components r.2)
 
 /-- `Glyph.move`: contours, components, anchors (not the image) -/
 def Glyph.move (g : Glyph) (dx dy : Rat) : Glyph :=
